@@ -3,7 +3,7 @@
    All theorems are for EVERY schedule (list of events), every queue, pop count, number of jobs and workers. *)
 From Coq Require Import List ZArith Bool Arith Permutation.
 Import ListNotations.
-Require Import DH.C17_Queue.Model DH.C17_Queue.Lemmas DH.C17_Queue.Lemmas2 DH.C17_Queue.Check.
+Require Import DH.C17_Queue.Model DH.C17_Queue.Lemmas DH.C17_Queue.Lemmas2 DH.C17_Queue.Check DH.C17_Queue.Lemmas3 DH.C17_Queue.Lemmas4 DH.C17_Queue.Lemmas5 DH.C17_Queue.Lemmas6 DH.C17_Queue.Lemmas7 DH.C17_Queue.Lemmas8.
 
 Theorem C17_conservation : forall q0 pop njobs W sched,
   let s := qrun pop (qinit q0 njobs W) sched in Permutation (queue s ++ held s) q0.
@@ -46,6 +46,187 @@ Proof.
 Qed.
 Print Assumptions C17_oracle_disjoint.
 
+
+(* never more running jobs than workers (one submit; see C17_ext_worker_bound_across_submits_refuted for several), and the
+   jobs that hold resources (bound to them, running or not) hold exactly pop each: groups in use * pop + free = |queue| *)
+Theorem C17_worker_bound : forall q0 pop njobs W sched,
+  let s := qrun pop (qinit q0 njobs W) sched in nrunning s <= W /\ workers s + nrunning s = W.
+Proof. intros. apply (worker_bound q0 pop W). apply qinv_run, qinv_init. Qed.
+Print Assumptions C17_worker_bound.
+
+Theorem C17_group_bound : forall q0 pop njobs W sched,
+  let s := qrun pop (qinit q0 njobs W) sched in nholding s * pop + length (queue s) = length q0.
+Proof. intros. apply (group_bound q0 pop W). apply qinv_run, qinv_init. Qed.
+Print Assumptions C17_group_bound.
+
+(* the oracle raises no alarm on ANY behaviour of the mechanism model: the observation trace of every schedule is accepted,
+   and on every complete run the final check (every job ran, metadata = resources received, every resource back) passes *)
+Theorem C17_model_run_is_accepted : forall q0 pop njobs W sched,
+  let s0 := qinit q0 njobs W in
+  exists s', replay_obs pop (mkA q0 [] []) 0 (obs_trace pop s0 sched) = (None, s') /\
+    (all_finished (qrun pop s0 sched) = true -> final_ok q0 njobs (model_meta (qrun pop s0 sched)) s' = 0).
+Proof. intros. apply model_run_is_accepted. Qed.
+Print Assumptions C17_model_run_is_accepted.
+
+(* the exact FIFO prediction used on the serial backend accepts every complete schedule whose takes are in job-id order
+   (what the FIFO queue semaphore does); a schedule with takes out of order is rejected (so it is a statement about that
+   semaphore, not a consequence of the property) *)
+Theorem C17_mech_replay_accepts_fifo : forall q0 pop njobs W sched,
+  let s0 := qinit q0 njobs W in
+  fifo_sched pop s0 sched = true -> all_finished (qrun pop s0 sched) = true -> mech_replay pop s0 (obs_trace pop s0 sched) = true.
+Proof. intros q0 pop njobs W sched s0. apply mech_replay_accepts_fifo. Qed.
+Print Assumptions C17_mech_replay_accepts_fifo.
+
+Theorem C17_mech_replay_rejects_non_fifo :
+  let sched := [Take 1; Take 0; Run 1; Run 0; Finish 0; Finish 1] in
+  let s0 := qinit [10; 11]%Z 2 2 in
+  all_finished (qrun 1 s0 sched) = true /\ fifo_sched 1 s0 sched = false /\ mech_replay 1 s0 (obs_trace 1 s0 sched) = false.
+Proof. exact mech_replay_rejects_non_fifo. Qed.
+Print Assumptions C17_mech_replay_rejects_non_fifo.
+
+
+(* ... and it ends exactly in the state of the mechanism: the deque of the implementation can be compared, order included *)
+Theorem C17_mech_state_complete : forall q0 pop njobs W sched,
+  let s0 := qinit q0 njobs W in
+  fifo_sched pop s0 sched = true -> all_finished (qrun pop s0 sched) = true ->
+  mech_state pop s0 (obs_trace pop s0 sched) = Some (qrun pop s0 sched).
+Proof. intros q0 pop njobs W sched s0. apply mech_state_complete. Qed.
+Print Assumptions C17_mech_state_complete.
+
+(* ---------------- the extended mechanism [xstep]: group semaphore, waves of submissions, run-functions that raise,
+   close() on both backends; every theorem is for EVERY schedule of [xev], every queue, pop, W, backend ---------------- *)
+Theorem C17_ext_conservation : forall q0 pop W thr sched,
+  let s := xrun pop W thr (xinit pop q0) sched in Permutation (xqueue s ++ xheld s) q0.
+Proof. intros. apply (x_cons q0 pop W). apply xinv_run, xinv_init. Qed.
+Print Assumptions C17_ext_conservation.
+
+(* a job that has a permit of the group semaphore always finds its resources: popleft never raises *)
+Theorem C17_ext_no_underflow : forall q0 pop W thr sched, xerr (xrun pop W thr (xinit pop q0) sched) = false.
+Proof. intros. apply (x_err q0 pop W). apply xinv_run, xinv_init. Qed.
+Print Assumptions C17_ext_no_underflow.
+
+Theorem C17_ext_exact_count : forall q0 pop W thr sched x,
+  In x (xjobs (xrun pop W thr (xinit pop q0) sched)) ->
+  match xph x with XWaiting | XCancelled => True | _ => length (xres x) = pop end.
+Proof. intros q0 pop W thr sched x. apply (x_len q0 pop W). apply xinv_run, xinv_init. Qed.
+Print Assumptions C17_ext_exact_count.
+
+(* the permits of Semaphore(len(queue) // pop) account for the groups in use, also when pop does not divide |queue| *)
+Theorem C17_ext_group_semaphore : forall q0 pop W thr sched,
+  let s := xrun pop W thr (xinit pop q0) sched in
+  xperm s + xnhold s = Nat.div (length q0) pop /\ length (xqueue s) + xnhold s * pop = length q0.
+Proof.
+  intros q0 pop W thr sched s. assert (H : XInv q0 pop W s) by (apply xinv_run, xinv_init).
+  split; [apply (x_perm _ _ _ _ H)| apply (xqueue_length _ _ _ _ H)].
+Qed.
+Print Assumptions C17_ext_group_semaphore.
+
+Theorem C17_ext_disjoint : forall q0 pop W thr sched, NoDup q0 ->
+  let s := xrun pop W thr (xinit pop q0) sched in
+  forall i j x, i <> j -> i < length (xjobs s) -> j < length (xjobs s) -> In x (xholds (xget s i)) -> In x (xholds (xget s j)) -> False.
+Proof. intros q0 pop W thr sched Hnd s. apply (xdisjoint q0 pop W); [exact Hnd| apply xinv_run, xinv_init]. Qed.
+Print Assumptions C17_ext_disjoint.
+
+(* serial backend: run-functions that are EXECUTING (cancelled or not) never share a resource *)
+Theorem C17_ext_executing_disjoint_serial : forall q0 pop W sched, NoDup q0 ->
+  let s := xrun pop W false (xinit pop q0) sched in
+  forall i j x, i <> j -> i < length (xjobs s) -> j < length (xjobs s) -> In x (xexec (xget s i)) -> In x (xexec (xget s j)) -> False.
+Proof.
+  intros q0 pop W sched Hnd s. apply (xexec_disjoint_serial q0 pop W); [exact Hnd| apply xinv_run, xinv_init|].
+  apply noz_run. intros x [].
+Qed.
+Print Assumptions C17_ext_executing_disjoint_serial.
+
+(* thread backend: after close() during an evaluation the thread keeps executing with resources that are handed out again (F52) *)
+Theorem C17_ext_zombie_shares_refuted :
+  let s := xrun 1 2 true (xinit 1 [100]%Z) [XSubmit 1; XTake 0; XRun 0; XStart 0; XClose; XSubmit 1; XTake 1; XRun 1; XStart 1] in
+  xerr s = false /\ map xph (xjobs s) = [XZombie; XRunning] /\ xexec (xget s 0) = [100]%Z /\ xexec (xget s 1) = [100]%Z.
+Proof. exact zombie_shares_refuted. Qed.
+Print Assumptions C17_ext_zombie_shares_refuted.
+
+(* workers: the bound holds per submit() (one worker semaphore per call) ... *)
+Theorem C17_ext_worker_bound_per_submit : forall q0 pop W thr sched,
+  let s := xrun pop W thr (xinit pop q0) sched in
+  forall g, g < length (xsems s) -> xnrun s g <= W /\ nth g (xsems s) 0 + xnrun s g = W.
+Proof. intros q0 pop W thr sched s. apply (xworker_bound q0 pop W). apply xinv_run, xinv_init. Qed.
+Print Assumptions C17_ext_worker_bound_per_submit.
+
+(* ... and not across submits on the serial backend (F21; not part of the statement of C17) *)
+Theorem C17_ext_worker_bound_across_submits_refuted :
+  let s := xrun 1 1 false (xinit 1 [1; 2]%Z) [XSubmit 1; XTake 0; XRun 0; XSubmit 1; XTake 1; XRun 1] in
+  map xph (xjobs s) = [XRunning; XRunning] /\ map xres (xjobs s) = [[1]; [2]]%Z.
+Proof. exact worker_bound_across_submits_refuted. Qed.
+Print Assumptions C17_ext_worker_bound_across_submits_refuted.
+
+(* thread backend: the pool bounds the run-functions that execute (cancelled ones included) by num_workers, across submits too *)
+Theorem C17_ext_thread_pool_bound : forall q0 pop W sched, xbusy (xrun pop W true (xinit pop q0) sched) <= W.
+Proof. intros. apply pool_bound. Qed.
+Print Assumptions C17_ext_thread_pool_bound.
+
+(* no deadlock, for an evaluator that the (repaired) constructor accepts: 1 <= pop <= |queue|: while a job is unfinished a job
+   can take / be admitted / be started by the pool / return, or the thread of a cancelled job can return *)
+Theorem C17_ext_progress : forall q0 pop W thr s0 sched, xnew pop q0 = Some s0 -> 1 <= W ->
+  let s := xrun pop W thr s0 sched in existsb xunfinished (xjobs s) = true -> xsome_enabled W s = true.
+Proof.
+  intros q0 pop W thr s0 sched Hn HW s. unfold xnew in Hn.
+  destruct (Nat.leb 1 pop) eqn:E1; destruct (Nat.leb pop (length q0)) eqn:E2; cbn in Hn; try discriminate. injection Hn as <-.
+  apply Nat.leb_le in E1. apply Nat.leb_le in E2. apply (xprogress q0 pop W); try assumption. apply xinv_run, xinv_init.
+Qed.
+Print Assumptions C17_ext_progress.
+
+(* the pinned constructor accepts queue_pop_per_task > len(queue): then no job ever receives a resource or runs, whatever
+   the schedule (gather never returns), F51; the repaired constructor rejects it *)
+Theorem C17_unvalidated_pop_starves_refuted : forall q0 pop W thr sched, length q0 < pop ->
+  let s := xrun pop W thr (xinit pop q0) sched in
+  xnew pop q0 = None /\ xqueue s = q0 /\ forall x, In x (xjobs s) -> xph x = XWaiting \/ xph x = XCancelled.
+Proof.
+  intros q0 pop W thr sched Hlt s. destruct (pop_too_large_starves q0 pop W thr Hlt sched) as (A & _ & C).
+  split; [|split; assumption]. unfold xnew. replace (Nat.leb pop (length q0)) with false by (symmetry; apply Nat.leb_gt; exact Hlt).
+  rewrite andb_false_r. reflexivity.
+Qed.
+Print Assumptions C17_unvalidated_pop_starves_refuted.
+
+(* [qstep] is the extended mechanism (serial backend) restricted to one submit without failures: same states along every schedule
+   (in particular its guard "pop <= |deque|" is exactly "the group semaphore has a permit") *)
+Theorem C17_ext_refines_mechanism : forall q0 pop W n sched, 1 <= pop ->
+  proj (xrun pop W false (xstep pop W false (xinit pop q0) (XSubmit n)) (map emb sched)) = qrun pop (qinit q0 n W) sched.
+Proof. intros. apply ext_refines_mechanism. assumption. Qed.
+Print Assumptions C17_ext_refines_mechanism.
+
+(* the oracle raises no alarm on ANY behaviour of the extended mechanism on the serial backend (waves, run-functions that
+   raise, close() during evaluations and reuse afterwards): every schedule's observation trace is accepted, and the oracle's
+   free set is the deque plus the resources bound to jobs that have not started *)
+Theorem C17_ext_serial_run_is_accepted : forall q0 pop W sched,
+  let s := xrun pop W false (xinit pop q0) sched in
+  exists a', replay_obs pop (mkA q0 [] []) 0 (xobs_trace pop W false (xinit pop q0) sched) = (None, a') /\
+             Permutation (free a') (xqueue s ++ flat_map xhold1 (xjobs s)).
+Proof. intros. apply ext_serial_run_is_accepted. Qed.
+Print Assumptions C17_ext_serial_run_is_accepted.
+
+(* ... whereas on the thread backend the trace of the zombie schedule is rejected: event 1 (the start of the second job),
+   clause 2 = a resource that is not free (F52, what the thread_steps stream reports on the implementation) *)
+Theorem C17_ext_thread_zombie_trace_refuted :
+  fst (replay_obs 1 (mkA [100]%Z [] []) 0
+        (xobs_trace 1 2 true (xinit 1 [100]%Z) [XSubmit 1; XTake 0; XRun 0; XStart 0; XClose; XSubmit 1; XTake 1; XRun 1; XStart 1]))
+  = Some (1, 2).
+Proof. exact ext_thread_zombie_rejected. Qed.
+Print Assumptions C17_ext_thread_zombie_trace_refuted.
+
+(* the deterministic driver used by the step-wise streams: after [xsettle] (one pass of take j; admit j in id order) no job can
+   take resources or be admitted any more, from every reachable state - the model state that is compared with the
+   implementation is the quiescent one *)
+Theorem C17_settle_quiescent : forall q0 pop W thr sched,
+  let s := xsettle pop W thr (xrun pop W thr (xinit pop q0) sched) in
+  forall j, xenabled s (XTake j) = false /\ xenabled s (XRun j) = false.
+Proof. intros q0 pop W thr sched s. apply (settle_quiescent q0 pop W thr). apply xinv_run, xinv_init. Qed.
+Print Assumptions C17_settle_quiescent.
+
+(* the final check of runs with failed / cancelled jobs: what a verdict 0 guarantees *)
+Theorem C17_final_okx_sound : forall q0 njobs nometa meta fq s, final_okx q0 njobs nometa meta fq s = 0 ->
+  active s = [] /\ Permutation fq q0 /\ Permutation (free s) q0.
+Proof. exact final_okx_sound. Qed.
+Print Assumptions C17_final_okx_sound.
+
 (* the pinned design (pop before the worker semaphore, one shared slot): F17 *)
 Theorem C17_prefix_shared_slot_refuted :
   running_received (orun 1 (oinit [10; 11; 12; 13]%Z 4 2)
@@ -62,4 +243,29 @@ Print Assumptions C17_prefix_underflow_refuted.
 Example C17_example :
   let s := qrun 2 (qinit [1;2;3;4;5]%Z 3 2) [Take 0; Take 1; Take 2; Run 0; Run 1; Finish 0; Take 2; Run 2] in
   map res (jobs s) = [[1;2];[3;4];[5;1]]%Z /\ queue s = [2]%Z /\ all_finished s = false.
+Proof. vm_compute. auto. Qed.
+
+(* non-vacuity: a complete FIFO schedule with contention (3 jobs, 2 groups of 2, 1 worker), its observation trace *)
+Example C17_example_fifo_complete :
+  let sched := [Take 0; Take 1; Take 2; Run 0; Run 1; Finish 0; Take 2; Run 1; Finish 1; Run 2; Finish 2] in
+  let s0 := qinit [1;2;3;4;5]%Z 3 1 in
+  fifo_sched 2 s0 sched = true /\ all_finished (qrun 2 s0 sched) = true /\
+  obs_trace 2 s0 sched = [ObsStart 0 [1;2]; ObsEnd 0; ObsStart 1 [3;4]; ObsEnd 1; ObsStart 2 [5;1]; ObsEnd 2]%Z.
+Proof. vm_compute. auto. Qed.
+
+(* non-vacuity of the extended mechanism: 5 resources in groups of 2 (one spare), 2 workers; job 0 raises, close() cancels a
+   running, a holding and a waiting job, the evaluator is used again *)
+Example C17_example_ext :
+  let s := xrun 2 2 false (xinit 2 [100;101;102;103;104]%Z)
+     [XSubmit 4; XTake 0; XRun 0; XTake 1; XRun 1; XFail 0; XTake 2; XClose; XSubmit 2; XTake 4; XRun 4; XTake 5; XRun 5; XFinish 4] in
+  map xph (xjobs s) = [XFailed; XCancelled; XCancelled; XCancelled; XDone; XRunning] /\
+  xqueue s = [103; 101; 104]%Z /\ xres (xget s 5) = [100; 102]%Z /\ xmeta s = [(4, [101; 104]%Z)] /\ xperm s = 1.
+Proof. vm_compute. auto 6. Qed.
+Example C17_example_xnew : xnew 2 [1;2;3]%Z <> None /\ xnew 0 [1]%Z = None /\ xnew 2 [1]%Z = None.
+Proof. vm_compute. split; [discriminate| auto]. Qed.
+
+(* thread backend: the pool serves one job at a time with one worker; the second job of another submit waits in the pool *)
+Example C17_example_pool :
+  let s := xrun 1 1 true (xinit 1 [1; 2]%Z) [XSubmit 1; XTake 0; XRun 0; XStart 0; XSubmit 1; XTake 1; XRun 1; XStart 1] in
+  map xph (xjobs s) = [XRunning; XQueued] /\ xbusy s = 1%nat.
 Proof. vm_compute. auto. Qed.
